@@ -136,6 +136,12 @@ def _gen_s2s(rng):
     kinds = [str(rng.choice(["rigid", "point"])) for _ in range(2)]
     npool = int(rng.integers(2, 5))
     r1, r2 = float(rng.uniform(0.1, 0.4)), float(rng.uniform(0.1, 0.4))
+    frame = None
+    if rng.random() < 0.35:
+        # one partner is a sphere moved explicitly in time (a Frame without coordinates of its own): the contact
+        # kinematics then depend on t at fixed q
+        kinds[int(rng.integers(2))] = "frame"
+        frame = {"c": rng.uniform(-0.5, 0.5, 3).tolist(), "amp": (rng.normal(size=3) * 0.3 * (r1 + r2)).tolist(), "w": float(rng.uniform(1, 4))}
 
     def state():
         parts, uparts = [], []
@@ -143,7 +149,15 @@ def _gen_s2s(rng):
         d = rng.normal(size=3)
         d /= np.linalg.norm(d)
         c2 = c1 + d * (r1 + r2) * float(rng.uniform(1.02, 2.0))
+        if frame is not None:
+            # keep the free sphere clear of the whole path of the moved one
+            cf = np.array(frame["c"])
+            reach = float(np.linalg.norm(frame["amp"]))
+            cb = cf + d * ((r1 + r2) * float(rng.uniform(1.05, 2.0)) + reach)
+            c1, c2 = (cf, cb) if kinds[0] == "frame" else (cb, cf)
         for k, c in zip(kinds, (c1, c2)):
+            if k == "frame":
+                continue
             if k == "rigid":
                 parts.append(np.concatenate([c, rot.rand_quat(rng)]))
                 uparts.append(rng.normal(size=6))
@@ -180,6 +194,7 @@ def _gen_s2s(rng):
     return {
         "target": "s2s",
         "kinds": kinds,
+        "frame": frame,
         "radii": [r1, r2],
         "mu": float(rng.uniform(0.1, 1.0)),
         "pool": pool,
@@ -327,14 +342,23 @@ class RigidTarget:
 
 def _build_s2s(plan, q0, u0):
     from cardillo import System
-    from cardillo.discrete import RigidBody, PointMass
+    from cardillo.discrete import RigidBody, PointMass, Frame
     from cardillo.contacts import Sphere2Sphere
 
     system = System()
     bodies = []
     iq = iu = 0
     for i, k in enumerate(plan["kinds"]):
-        if k == "rigid":
+        if k == "frame":
+            f = plan["frame"]
+            c0, amp, w = np.array(f["c"]), np.array(f["amp"]), f["w"]
+            b = Frame(
+                r_OP=lambda t, c0=c0, amp=amp, w=w: c0 + amp * np.sin(w * t),
+                r_OP_t=lambda t, amp=amp, w=w: amp * w * np.cos(w * t),
+                r_OP_tt=lambda t, amp=amp, w=w: -amp * w * w * np.sin(w * t),
+                name=f"b{i}",
+            )
+        elif k == "rigid":
             b = RigidBody(1.0 + i, np.diag([0.1, 0.2, 0.3]), q0=np.array(q0[iq : iq + 7]), u0=np.array(u0[iu : iu + 6]), name=f"b{i}")
             iq += 7
             iu += 6
@@ -585,6 +609,8 @@ def execute(plan, out, log):
     variant = plan["target"]
     if plan["target"] == "s2s":
         variant += ":" + "+".join(plan["kinds"])
+        if "frame" in plan["kinds"]:
+            out["probes"]["s2s_time_dependent_partner"] += 1
     if plan["target"] == "rod":
         s = plan["spec"]
         variant += f":{s['interp']}:{'mixed' if s['mixed'] else 'db'}:{s['constraints']}:p{s['degree']}"
